@@ -83,7 +83,15 @@ func onceBody(ncallers int, withCancel, ctxAware bool) func() {
 		}
 		first := 0
 		if withCancel {
-			ctx, cancel := context.WithCancel(bg)
+			// the first caller's context is cancelled, or expires (deadline): both read "cancelled" to Resolve
+			var ctx context.Context
+			var cancel func()
+			if vsched.Choose(2) == 0 {
+				ctx, cancel = context.WithCancel(bg)
+			} else {
+				e := newExpCtx(bg)
+				ctx, cancel = e, e.expire
+			}
 			T("R0", func() { caller(0, ctx, true) })
 			T("C", func() { vsched.CtrSet(c16Cancel, 1); cancel() })
 			first = 1
@@ -207,6 +215,40 @@ func init() {
 			}
 			vsched.Settle()
 			check()
+			if vsched.Ctr(c16Calls) != 1 {
+				fail("C16.memo-called-twice", "function called %d times", vsched.Ctr(c16Calls))
+			}
+		},
+	})
+	eng.Register(&eng.Scenario{
+		Name: "memo-panic", Props: []string{"C16"}, MustFinish: true, ObsNames: stdObs,
+		Doc:   "memo.MemoizeFunc whose function panics (the caller that ran it recovers): the function was called exactly once in total, so the other two concurrent callers and a late caller return (with that call's zero result) instead of waiting for ever, and the function is not called again",
+		Quick: eng.Bounds{PB: 3}, Thorough: eng.Bounds{PB: 5},
+		Body: func() {
+			f := memo.MemoizeFunc(func() (int, error) {
+				vsched.CtrAdd(c16Calls, 1)
+				vsched.Point()
+				panic("memoized function failed")
+			})
+			call := func() {
+				defer func() { recover() }()
+				label("memo")
+				v, err := f()
+				label("")
+				vsched.Observe(oRet, int64(v), b2i(err != nil), 0)
+				if v != 0 || err != nil {
+					fail("C16.memo-result", "caller received (%d,%v) from a call that panicked", v, err)
+				}
+			}
+			for i := 0; i < 3; i++ {
+				T("M", call)
+			}
+			vsched.Settle()
+			if n := vsched.CountParked("memo"); n > 0 {
+				fail("C16.stuck", "%d caller(s) of the memoized function wait for ever after its only call panicked", n)
+				return
+			}
+			call()
 			if vsched.Ctr(c16Calls) != 1 {
 				fail("C16.memo-called-twice", "function called %d times", vsched.Ctr(c16Calls))
 			}
